@@ -6,7 +6,7 @@ import ast
 from sa.engine.facts import Bad, F, atom
 from sa.engine.pattern import P, u
 from sa.engine.source import norm, own_walk, stmt_of
-from .common import A, TASKS, writer_table, lexically_inside
+from .common import A, TASKS, writer_table, lexically_inside, resolve_value
 from .walkers import loop_var
 
 EXPLANATION = ("Deadlines: the timer callback re-checks the clock and cancels only when the deadline has been reached, otherwise re-arms "
@@ -56,13 +56,8 @@ def now_plus_delay_or_inf(fn, e) -> bool:
 
 
 def resolve(fn, e):
-    """follow a single-assignment local"""
-    if isinstance(e, ast.Name):
-        defs = [n for n in own_walk(fn) if isinstance(n, ast.Assign) and len(n.targets) == 1 and isinstance(n.targets[0], ast.Name)
-                and n.targets[0].id == e.id]
-        if len(defs) == 1:
-            return defs[0].value
-    return e
+    """follow a local (single assignment, or the two arms of one `if`)"""
+    return resolve_value(fn, e)
 
 
 def check(ctx):
